@@ -340,15 +340,28 @@ theorem step_inboundData (a : Agent) (now la src len : Nat) (l : Cand) (hc : a.c
   unfold step
   simp [hc, hs, hl]
 
-theorem step_read_closed (a : Agent) (h : a.closed = true) : step a .read = (a, [.res "err:closed"]) := by
+theorem step_read_closed (a : Agent) (cap : Nat) (h : a.closed = true) : step a (.read cap) = (a, [.res "err:closed"]) := by
   unfold step; simp [h]
 
-theorem step_read_empty (a : Agent) (h : a.closed = false) (hr : a.rx = []) : step a .read = (a, [.res "empty"]) := by
+theorem step_read_empty (a : Agent) (cap : Nat) (h : a.closed = false) (hr : a.rx = []) :
+    step a (.read cap) = (a, [.res "empty"]) := by
   unfold step; simp [h, hr]
 
-theorem step_read_some (a : Agent) (n : Nat) (rest : List Nat) (h : a.closed = false) (hr : a.rx = n :: rest) :
-    step a .read = ({ a with rx := rest, connBytesRecv := a.connBytesRecv + n }, [.res s!"read:{n}"]) := by
+/-- the general case: the head datagram is consumed whole, `min n cap` bytes are returned and counted -/
+theorem step_read_some (a : Agent) (cap n : Nat) (rest : List Nat) (h : a.closed = false) (hr : a.rx = n :: rest) :
+    step a (.read cap) = ({ a with rx := rest, connBytesRecv := a.connBytesRecv + min n cap },
+      [.res (if cap < n then s!"short:{cap}" else s!"read:{n}")]) := by
   unfold step; simp [h, hr]
+
+/-- a buffer that is large enough: the whole datagram is returned and counted -/
+theorem step_read_full (a : Agent) (cap n : Nat) (rest : List Nat) (h : a.closed = false) (hr : a.rx = n :: rest) (hn : n ≤ cap) :
+    step a (.read cap) = ({ a with rx := rest, connBytesRecv := a.connBytesRecv + n }, [.res s!"read:{n}"]) := by
+  rw [step_read_some a cap n rest h hr, Nat.min_eq_left hn, if_neg (by omega)]
+
+/-- a short buffer (`io.ErrShortBuffer`): the datagram is consumed whole, `cap` bytes are returned and counted -/
+theorem step_read_short (a : Agent) (cap n : Nat) (rest : List Nat) (h : a.closed = false) (hr : a.rx = n :: rest) (hn : cap < n) :
+    step a (.read cap) = ({ a with rx := rest, connBytesRecv := a.connBytesRecv + cap }, [.res s!"short:{cap}"]) := by
+  rw [step_read_some a cap n rest h hr, Nat.min_eq_right (by omega), if_pos hn]
 
 
 end IceProofs.AgentC07
